@@ -287,6 +287,32 @@ def run(ctx):
                           dict(kind='case', case=c[:20000], go=res))
     ctx.extra['accepted'] = acc
     ctx.extra['rejected'] = rej
+    # a decoder that works through goroutines of its own must not race with itself either (a race is a crash waiting for its schedule): the
+    # inputs that hold several policies / entities / members, and a sample of the rest, once more under the race detector
+    okr, rlog = lib.build_harness(race=True)
+    ctx.oblige('go: harness builds with the race detector (-race -tags verif)', 'build', okr, '' if okr else rlog[-2000:])
+    if okr:
+        many = []
+        for which in ('policyset-json', 'entitymap-json', 'policyset-text', 'policylist', 'stream', 'schema-json', 'schema-text'):
+            group = [c for c in cases if len(c) < 20000 and c.split(' ', 4)[3] == which]
+            accepted = [c for c in group if go.get(lib.case_id(c)) == '(accepted)']
+            per = 100 if quick else 1000
+            many += accepted[:per] + [c for c in group if c not in set(accepted)][:per // 4]
+        chosen = set(many)
+        rest = [c for c in cases if len(c) < 20000 and c not in chosen]
+        sample = many + r.sample(rest, min(len(rest), 300 if quick else 3000))
+        rgo = lib.run_go(sample, 'decode-race', ctx.workdir, timeout_ms=60000, shards=lib.NCPU, binary=lib.HARNESS_RACE)
+        rbad = 0
+        for c in sample:
+            cid = lib.case_id(c)
+            a, b_ = go.get(cid, '(missing)'), rgo.get(cid, '(missing)')
+            if a != b_ and a in ('(accepted)', '(rejected)'):
+                rbad += 1
+                if rbad <= 4:
+                    ctx.violation('decoder under the race detector: %s (plain run: %s) on %s input of %d bytes' % (b_[:300], a, c.split(' ')[3], (len(c.split(' ')[4]) - 2) // 2),
+                                  dict(kind='case', case=c[:20000], go=b_, plain=a, binary='harness-race'))
+        ctx.oblige('runtime oracle: the same outcome under the race detector, no data race inside a decoder (%d inputs, %d of them documents with several policies / entities)'
+                   % (len(sample), len(many)), 'oracle', rbad == 0)
     ctx.oblige('runtime oracle: no panic / crash / hang on %d inputs (accepted %d, rejected %d)' % (len(cases), acc, rej), 'oracle', bad == 0)
     for c in cases[:3]:
         ctx.sample(dict(case=c[:300], go=go.get(lib.case_id(c))))
